@@ -128,13 +128,20 @@ impl DiscoveryAdapter for WorldAdapters {
 impl FilterAdapter for WorldAdapters {
     async fn filter(&self, _c: &SocketAddr, _s: (&str, u16), _p: Protocol, u: (&str, &Uuid), targets: Vec<Target>) -> passage_adapters::Result<Vec<Target>> {
         self.log.lock().unwrap().filtered.push((u.0.to_string(), targets.iter().map(|t| t.identifier.clone()).collect()));
+        if u.0.starts_with("V_FailF") {
+            return Err(passage_adapters::Error::FailedFetch { adapter_type: "verif", cause: "the filter backend fails on purpose".into() });
+        }
         Ok(targets)
     }
 }
 
 impl StrategyAdapter for WorldAdapters {
     async fn select(&self, _c: &SocketAddr, _s: (&str, u16), _p: Protocol, u: (&str, &Uuid), targets: Vec<Target>) -> passage_adapters::Result<Option<Target>> {
-        let choice = world_choice(u.0, &targets);
+        if u.0.starts_with("V_FailS") {
+            self.log.lock().unwrap().selected.push((u.0.to_string(), targets.iter().map(|t| t.identifier.clone()).collect(), None));
+            return Err(passage_adapters::Error::FailedFetch { adapter_type: "verif", cause: "the strategy backend fails on purpose".into() });
+        }
+        let choice = if u.0.starts_with("V_NoneS") { None } else { world_choice(u.0, &targets) };
         self.log.lock().unwrap().selected.push((u.0.to_string(), targets.iter().map(|t| t.identifier.clone()).collect(), choice.as_ref().map(|t| (t.identifier.clone(), t.address))));
         Ok(choice)
     }
@@ -400,6 +407,8 @@ pub struct RunOut {
     pub panics: u64,
     /// a fresh status client was served after everything else (None: shutdown had been requested, no probe)
     pub probe: Option<Result<(), String>>,
+    /// an ordinary player ("Zed") who logs in after everything else (None: shutdown had been requested)
+    pub late: Option<Rec>,
 }
 
 static PANICS: std::sync::atomic::AtomicU64 = std::sync::atomic::AtomicU64::new(0);
@@ -454,6 +463,7 @@ pub async fn run_schedule(cfg: &WorldCfg, plans: &[Plan], schedule: &[Act]) -> R
     }
     drop(cls);
     let mut probe = None;
+    let mut late = None;
     if !stopped {
         let r = async {
             let mut c = McClient::connect(running.addr, Some("127.0.0.9".parse().unwrap())).await.map_err(|e| format!("connect: {e}"))?;
@@ -464,11 +474,17 @@ pub async fn run_schedule(cfg: &WorldCfg, plans: &[Plan], schedule: &[Act]) -> R
         }
         .await;
         probe = Some(r);
+        let mut zed = Cl { plan: late_plan(), c: None, out: LoginOutcome { packets: vec![], stage: Stage::Connected, error: None }, done: 0, dropped: false, connected: false };
+        gate.add_permits(2);
+        for _ in 0..6 {
+            advance(&mut zed, running.addr, cfg.proxy, None).await;
+        }
+        late = Some(finish(&mut zed).await);
         running.stop.cancel();
     }
     let listener_returned = tokio::time::timeout(Duration::from_secs(3), running.done).await.is_ok();
     let log = log.lock().unwrap().clone();
-    RunOut { recs, log, listener_returned, panics: PANICS.load(Ordering::SeqCst) - panics_before, probe }
+    RunOut { recs, log, listener_returned, panics: PANICS.load(Ordering::SeqCst) - panics_before, probe, late }
 }
 
 // ---------------------------------------------------------------------------------------
@@ -598,6 +614,14 @@ const B_IP: &str = "198.51.100.20";
 pub const A_UUID: u128 = 0x0a0a_0a0a_0a0a_4a0a_8a0a_0a0a_0a0a_0a0a;
 pub const B_UUID: u128 = 0x0b0b_0b0b_0b0b_4b0b_8b0b_0b0b_0b0b_0b0b;
 
+/// the ordinary player who comes after everything else
+pub fn late_plan() -> Plan {
+    let mut p = Plan::login("Zed", 0x0d0d_0d0d_0d0d_4d0d_8d0d_0d0d_0d0d_0d0d, "198.51.100.30");
+    p.label = "Zed logs in after the others are gone".into();
+    p.bind_ip = "127.0.0.9".parse().unwrap();
+    p
+}
+
 /// the honest players A can be
 pub fn a_plans(cfg: &WorldCfg) -> Vec<Plan> {
     let ip = if cfg.proxy { A_IP } else { "127.0.0.1" };
@@ -656,6 +680,11 @@ pub fn b_plans(cfg: &WorldCfg) -> Vec<Plan> {
     let mut denied = Plan::login("Deny_Bob", B_UUID, B_IP);
     denied.label = "a player the authentication service does not vouch for".into();
     v.push(denied);
+    for (name, what) in [("FailF_Bob", "a player for whom the filter backend fails"), ("FailS_Bob", "a player for whom the strategy backend fails"), ("NoneS_Bob", "a player for whom the strategy chooses nothing")] {
+        let mut p = Plan::login(name, B_UUID, B_IP);
+        p.label = what.into();
+        v.push(p);
+    }
     v.push(Plan::status(B_IP));
     v
 }
@@ -761,7 +790,7 @@ pub fn expected_kinds(cfg: &WorldCfg, p: &Plan) -> Option<Vec<&'static str>> {
     if p.status {
         return (p.stages >= 3).then(|| vec!["StatusResponse", "Pong"]);
     }
-    if p.stages < 6 || p.takes_others_token || p.params.name.starts_with("Deny") || !cfg.fail_calls.is_empty() {
+    if p.stages < 6 || p.takes_others_token || ["Deny", "FailF", "FailS", "NoneS"].iter().any(|x| p.params.name.starts_with(x)) || !cfg.fail_calls.is_empty() {
         return None;
     }
     let mut v = vec!["LoginCookieRequest"];
@@ -810,7 +839,8 @@ pub fn judge(prop: &str, s: &Situation) -> Vec<(String, String)> {
                     }
                 }
             }
-            let allowed: Vec<String> = s.plans.iter().map(identity_of).collect();
+            let mut allowed: Vec<String> = s.plans.iter().map(identity_of).collect();
+            allowed.push("V_Zed".into());
             for name in s.out.log.filtered.iter().map(|(n, _)| n).chain(s.out.log.selected.iter().map(|(n, _, _)| n)) {
                 if !allowed.contains(name) {
                     v.push(("world:routing-under-an-identity-nobody-vouched-for".into(), format!("filtering or selection was asked about player '{name}'; vouched identities: {allowed:?}")));
@@ -920,6 +950,19 @@ pub fn judge(prop: &str, s: &Situation) -> Vec<(String, String)> {
             }
         }
         _ => {}
+    }
+    // whatever happened before - failures, refusals, clients that went away - an ordinary player who comes afterwards
+    // is served in full, as himself
+    if matches!(prop, "C01" | "C03" | "C04" | "C05" | "C06" | "C08" | "C10") {
+        if let (Some(late), Some(want)) = (&s.out.late, expected_kinds(&s.cfg, &late_plan())) {
+            let got: Vec<&str> = late.packets.iter().map(|p| p.kind()).filter(|k| *k != "KeepAlive").collect();
+            let name = late.packets.iter().find_map(|p| if let Pkt::LoginSuccess { name, .. } = p { Some(name.as_str()) } else { None });
+            let t = world_choice("V_Zed", &world_targets()).expect("target");
+            let went = late.packets.iter().find_map(|p| if let Pkt::Transfer { host, port } = p { Some((host.parse::<IpAddr>().ok(), *port)) } else { None });
+            if got != want || name != Some("V_Zed") || went != Some((Some(t.address.ip()), t.address.port() as i32)) || !wire_faults(late).is_empty() {
+                v.push(("world:later-player-not-served-correctly".into(), format!("an ordinary player who logged in after the others were gone was answered with {got:?} as {name:?}, sent to {went:?} (stage {:?}, error {:?}); expected {want:?} as V_Zed, sent to {}", late.stage, late.error, t.address)));
+            }
+        }
     }
     // what every hosted property relies on: an honest, complete client is served in full
     if matches!(prop, "C01" | "C03" | "C05" | "C06" | "C08" | "C10") && s.plans.len() == 1 {
